@@ -422,7 +422,7 @@ class C20(Check):
         finally: del core.addListeners
         of_01.deferredSender = ds
         of_01.PIPE_BUF = case["pb"]
-        status, queued = "ok", b""
+        status, queued, trace = "ok", b"", []
         plan = {"lists": None, "calls": 0}
         class FakeSelect:
             error = OSError
@@ -485,6 +485,9 @@ class C20(Check):
                     s2.script = [{"o": "again"}]; con2.send(b"\x01\x02\x03"); s2.script = []
                 else:
                     iteration([con2], [])
+                # the state after EVERY whole operation (ties the over-time theorem ctl_history)
+                trace.append([len(s1.accepted) - hello, sum(len(x) for x in ds._dataForConnection.get(con, [])),
+                              int(bool(con.disconnected)), int(bool(ds.sending))])
             # what the serving task does with a connection it finds disconnected (its read returns False): con.close()
             if con.disconnected:
                 con.close(); con.close()
@@ -494,7 +497,8 @@ class C20(Check):
             of_01.deferredSender, of_01.PIPE_BUF, of_01.select = old_ds, old_pb, old_select
         pend = [bytes(x).hex() for x in ds._dataForConnection.get(con, [])]
         return {"accepted": s1.accepted[hello:].hex(), "pending": pend, "disc": bool(con.disconnected), "sending": bool(ds.sending),
-                "offered_after_disc": s1.offered_after_fatal, "queued": queued.hex(), "status": status, "downs": [downs["nexus"], downs["con"]]}
+                "offered_after_disc": s1.offered_after_fatal, "queued": queued.hex(), "status": status, "downs": [downs["nexus"], downs["con"]],
+                "trace": trace}
 
     def _impl_m(self, case):
         """n real Connections over scripted sockets, ONE real DeferredSender whose thread body is driven by the harness"""
@@ -602,8 +606,9 @@ class C20(Check):
                 elif op["op"] == "flush": ops.append({"op": "flush", "w": [{"c": j, "outs": [self._o(o) for o in outs]} for j, outs in sorted(op["w"], key=lambda x: x[0])]})
                 else: ops.append({"op": "disc", "c": op["c"], "close": op["how"] == "close"})
             return {"part": "M", "pb": case["pb"], "n": case["n"], "ops": ops}
-        acts, total = [], 0
+        acts, total, marks = [], 0, []
         for op in case["ops"]:
+            marks.append(len(acts))                       # (the mark of the PREVIOUS operation's end; shifted below)
             if op["op"] == "send":
                 total += op["n"]
                 acts += [{"a": "coopCheck", "d": data(op["i"], op["n"]).hex()}, dict(a="coopGo", **self._o(op["o"])), {"a": "coopEnq"}]
@@ -619,7 +624,8 @@ class C20(Check):
                 acts.append({"a": "senderFinish"})
             elif op["op"] == "envenq": acts.append({"a": "envEnq"})
             else: acts.append({"a": "envDone", "reset": True})
-        return {"part": "B", "pb": case["pb"], "acts": acts}
+        marks = marks[1:] + [len(acts)]                   # number of actions done when each whole operation has ended
+        return {"part": "B", "pb": case["pb"], "acts": acts, "marks": marks}
 
     def impl_view(self, case, obs):
         if case["part"] == "A":
@@ -629,14 +635,18 @@ class C20(Check):
             return v
         if case["part"] == "M":
             return {"views": [dict({k: c[k] for k in ("accepted", "pending", "disc", "offered_after_disc")}, sending=obs["sending"]) for c in obs["cons"]]}
-        return {k: obs[k] for k in ("accepted", "pending", "disc", "sending", "offered_after_disc")}
+        v = {k: obs[k] for k in ("accepted", "pending", "disc", "sending", "offered_after_disc")}
+        if case["part"] == "B": v["trace"] = obs["trace"]
+        return v
 
     def model_obs(self, case, resp):
         if "error" in resp: return resp
         if case["part"] == "M":
             return {"views": [{k: v[k] for k in ("accepted", "pending", "disc", "offered_after_disc", "sending")} for v in resp["views"]]}
         keys = ("accepted", "send_buf", "closed", "close_events", "offered", "shut_wr", "trace") if case["part"] == "A" else ("accepted", "pending", "disc", "sending", "offered_after_disc")
-        return {k: resp[k] for k in keys}
+        v = {k: resp[k] for k in keys}
+        if case["part"] == "B": v["trace"] = resp["trace"]
+        return v
 
     # ------------------------------------------------------------------ the property on the implementation
     def oracle(self, case, obs):
